@@ -146,7 +146,7 @@ pub fn run(ctx: &Ctx) -> Report {
         "model formulas are those of the property statement; the original-line rule is cross-checked mapper vs cache".into(),
         "cache buffers are 8-byte aligned".into(),
     ];
-    let n = ctx.cases(400, 12000);
+    let n = ctx.cases(6000, 60_000);
     rep.run_stage("ast", || map_case(&cfg()), n, check_case);
     rep
 }
